@@ -1229,6 +1229,10 @@ def named_nodes(world: World, op: dict) -> list[int]:
         t = op["time"]
         sp = tuple(np.asarray(a, dtype=np.int64) for a in op["pixels"])
         vals = {int(v) for v in np.unique(seg[t][sp]).tolist()} - {0}
+        sf = op.get("second_frame")
+        if sf is not None:
+            sp2 = tuple(np.asarray(a, dtype=np.int64) for a in sf["pixels"])
+            vals |= {int(v) for v in np.unique(seg[int(sf["time"])][sp2]).tolist()} - {0}
         if op["value"]:
             vals.add(int(op["value"]))
         return sorted(vals)
